@@ -25,7 +25,9 @@ F = {
             ("C02", "missing", "cfg x=1 | T0: spawn 1; st 0 1 rlx; ld 0 rlx; join 1 | T1: ld 0 rlx; st 0 2 rlx",
              "ok 0:0=- 0:1=- 0:2=v:2 0:3=- 1:0=v:1 1:1=-", "rc11-strong"),
             ("C15", "bound-not-subset", "cfg x=1 | T0: spawn 1; ld 0 rlx; st 0 1 rlx; join 1; ld 0 rlx | T1: ld 0 rlx; st 0 10 rlx",
-             "ok 0:0=- 0:1=v:10 0:2=- 0:3=- 0:4=v:1 1:0=v:0 1:1=-")]),
+             "ok 0:0=- 0:1=v:10 0:2=- 0:3=- 0:4=v:1 1:0=v:0 1:1=-"),
+            ("C19", "controls-not-subset", "cfg x=2 | T0: spawn 1; ld 0 rlx; stop; swap 0 1 ar; explore; join 1 | T1: ld 0 acq; st 0 2 rlx",
+             "v:0 v:2 v:2", None, "cfg x=2 | T0: spawn 1; ld 0 rlx; swap 0 1 ar; join 1 | T1: ld 0 acq; st 0 2 rlx")]),
  "F2": dict(cls="fence-acquire-over-sync",
    what="fence(Acquire) acquires from every store seen by a thread that happens-before the fencing thread, not only from stores the fencing thread read: an RC11-allowed outcome is never explored (rt/atomic.rs fence_acq, FirstSeen::is_seen_by_current)",
    entries=[("C02", "missing", "cfg x=3 | T0: spawn 1; spawn 2; st 1 1 rlx; st 0 1 rel; join 1; join 2 | T1: ld 0 rlx; st 2 1 rel | T2: ld 2 acq; fence acq; ld 1 rlx",
@@ -59,7 +61,9 @@ F = {
    what="a thread pending on try_lock/try_read/try_write is blocked when another thread acquires the lock, so the failing try is never explored and a false deadlock can be reported (Mutex::post_acquire, RwLock::post_acquire_*)",
    entries=[(p, "missing", "cfg m=1 | T0: spawn 1; trylock 0; ifeq 1 v:1 1; unlock 0; join 1 | T1: lock 0; unlock 0",
              "ok 0:0=- 0:1=v:0 0:4=- 1:0=- 1:1=-") for p in ("C01", "C07")] +
-           [(p, "badverdict", "cfg m=1 | T0: spawn 1; lock 0; join 1; unlock 0 | T1: trylock 0; ifeq 1 v:1 1; unlock 0", "deadlock") for p in ("C01", "C05", "C07")]),
+           [(p, "badverdict", "cfg m=1 | T0: spawn 1; lock 0; join 1; unlock 0 | T1: trylock 0; ifeq 1 v:1 1; unlock 0", "deadlock") for p in ("C01", "C05", "C07")] +
+           [("C19", "controls-not-subset", "cfg m=2 c=1 | T0: spawn 1; lock 0; lock 1; unlock 1; unlock 0; skip; lock 0; lock 1; unlock 1; unlock 0; join 1 | T1: trylock 0; ifeq 1 v:1 2; crd 0; unlock 0; lock 0; cwr 0 1; unlock 0",
+             "v:0", None, "cfg m=2 c=1 | T0: spawn 1; lock 0; lock 1; unlock 1; unlock 0; lock 0; lock 1; unlock 1; unlock 0; join 1 | T1: trylock 0; ifeq 1 v:1 2; crd 0; unlock 0; lock 0; cwr 0 1; unlock 0")]),
  "F10": dict(cls="arc-inspect-not-dependent",
    what="strong_count/get_mut never observe a concurrent drop or clone: RefDec does not depend on an earlier Inspect (rt/arc.rs last_dependent_access)",
    entries=[(p, "missing", "cfg  | T0: anew 0; aclone 0 1; spawn 1; acount 0; adrop 0; join 1 | T1: adrop 1",
@@ -91,8 +95,10 @@ def main():
             prop, kind, witness, outcome = e[:4]
             d = {"property": prop, "id": fid, "class": f["cls"], "kind": kind, "witness": witness,
                  "outcome": outcome, "what": fid + " " + f["what"]}
-            if len(e) > 4:
+            if len(e) > 4 and e[4]:
                 d["oracle"] = e[4]
+            if len(e) > 5:
+                d["base"] = e[5]
             lines.append("finding: " + json.dumps(d))
     open(os.path.join(VERIF, "known_findings.txt"), "w").write("\n".join(lines) + "\n")
 
